@@ -51,6 +51,9 @@ def build_program(rng, last_kind=None, predefined=None):
     if rng.random() < 0.5:
         rng.shuffle(order)
     lines = []
+    if rng.random() < 0.2:
+        # an #unmute / #emit while nothing is muted changes nothing: a later #mute still mutes
+        lines += [{'k': 'unmute', 'text': rng.choice(['#unmute', '#emit']), 'surplus': True}] * rng.choice([1, 1, 2])
     muted_seg = rng.randrange(len(segs)) if rng.random() < 0.3 else None
     for si in order:
         sg = segs[si]
@@ -138,7 +141,7 @@ class C03(core.Check):
                                        'e:mid-line/same-line', 'last:byte', 'last:label', 'last:muted', 'last:zero-length',
                                        'last:org', 'fill!=0', 'predefined-data', 'muted-region', 'stale-longer-image-present', 'mute-around-include',
                                        's:below-redefined-global', 'e:above-redefined-global', 'e:beyond-address-space',
-                                       'muted-embedded-string']}
+                                       'muted-embedded-string', 'surplus-unmute-before-a-muted-region']}
 
     def make_case(self, isa, lines, res, lk, s, e, fill, tags):
         fn, text = isamod.render_isa(isa, 'json')
@@ -187,6 +190,8 @@ class C03(core.Check):
                     tags.append('predefined-data')
                 if any(l.get('muted') and l['k'] in layout.BYTE_KINDS for l in lines):
                     tags.append('muted-region')
+                if any(l.get('surplus') for l in lines) and any(l.get('muted') and l['k'] in layout.BYTE_KINDS for l in lines):
+                    tags.append('surplus-unmute-before-a-muted-region')
                 if any(l.get('muted') and l.get('string_line') and l['text'].startswith('"') for l in lines):
                     tags.append('muted-embedded-string')
                 yield self.make_case(isa, lines, res, lk, s, e, fill, tags)
